@@ -241,11 +241,18 @@ template <> z_interval_t z_interval_t::AShr(const z_interval_t &x) const {
       // huge shifts.  We limit the number of times the loop is run
       // to avoid wasting too much time on it.
       if (k <= 128) {
-        z_number factor = 1;
-        for (int i = 0; k > i; i++) {
-          factor *= 2;
+        // An arithmetic shift rounds towards minus infinity (unlike
+        // the division of intervals, which truncates) and it is
+        // monotone, so it can be applied to each finite bound.
+        bound<z_number> lb = _lb;
+        if (boost::optional<z_number> l = _lb.number()) {
+          lb = bound<z_number>(*l >> k);
         }
-        return (*this) / factor;
+        bound<z_number> ub = _ub;
+        if (boost::optional<z_number> u = _ub.number()) {
+          ub = bound<z_number>(*u >> k);
+        }
+        return z_interval_t(lb, ub);
       }
     }
     return top();
